@@ -144,7 +144,7 @@ def units(w):
     def lemma(name, build):
         def body(it, c):
             for nm, f in build():
-                it.check("lemma:" + nm, f)
+                it.check("lemma:" + nm, f, assume=False)
             return Outcome("return", None)
         return Unit(None, lambda it: ([], {}, {}), None, name="lemma::" + name, body=body, canary=False)
 
